@@ -20,6 +20,10 @@ def run(ctx):
     add('d2.h3.n2.k-1..1.box1', D(2, 3, 2, 1, BOX=1), [-2, -1, -9, 0, 1, 0], 240, 'per-dimension box widths')
     add('d3.h2.n2.k-1..2', D(3, 2, 2, 1), [-2, -1, -9, 0, 2, 0], 240, '')
     add('d3.h3.n1.k-1..2', D(3, 3, 1, 1), [1, -1, -9, 0, 2, 0], 300, 'a single particle in every leaf of the 4x4x4 grid: it interacts with its own images only')
+    from .C09 import DT
+    S.append(dict(name='tsm.d1.h3.s1.t1.k-1..3', wrapper='w_periodic_tsm.cpp', defines=DT(1, 3, 1, 1, 0), entry='h_c10_tsm', args=[-2, -1, -9, 0, 3, 0], time_limit=200,
+                  note='target/source variant: TbfAlgorithmTsm + TbfAlgorithmPeriodicTopTreeTsm', expect_reach=(520, 521)))
+    S.append(dict(name='tsm.d2.h2.s1.t1.k-1..2', wrapper='w_periodic_tsm.cpp', defines=DT(2, 2, 1, 1, 1), entry='h_c10_tsm', args=[1, -1, -9, 0, 2, 0], time_limit=200, note='', expect_reach=(520, 521)))
     if not q:
         add('d1.h3.n3.k-1..5', D(1, 3, 3, 0), [-3, -1, -9, 0, 5, 0], 2400, '')
         add('d1.h5.n2.k-1..5', D(1, 5, 2, 1), [-3, -1, -9, 0, 5, 0], 1800, '')
@@ -28,7 +32,7 @@ def run(ctx):
         add('d3.h3.n2.k-1..5', D(3, 3, 2, 1), [-2, -1, -9, 0, 5, 0], 3600, '')
         add('d3.h2.n3.k-1..3.float', D(3, 2, 3, 1, REALT='float', BOX=1), [-2, -1, -9, 0, 3, 0], 2400, '')
     ctx.bounds.update(dict(trees='Dim 1-3, heights 2-4 (5 thorough), 2-3 particles, block sizes 1..3, both grouping modes', extra_levels='-1..3 quick / -1..5 thorough',
-                           executors='sequential executor + single-tree top tree; the target/source top tree variant and OpenMP are outside this module',
+                           executors='sequential executors: single-tree and target/source, each with its top-tree class; OpenMP outside this module',
                            outside='numerical kernels under periodicity (C04/C05); extra levels > 5'))
     ctx.assumptions += ASSUME
     e2.run_configs(ctx, S)
